@@ -185,6 +185,7 @@ type group struct {
 	key      string
 	deferred bool
 	label    string
+	labels   []string // labels of every active enclosing @defer (the statement does not say which one names a nested group)
 	fields   []*ast.Field
 	// D16 quirk: the type condition context the first field came through
 	cond string
@@ -277,10 +278,10 @@ func (r *Ref) deferOf(dirs ast.DirectiveList) (bool, string) {
 }
 
 func (r *Ref) collect(obj *ast.Definition, sel ast.SelectionSet, visited map[string]bool, groups *[]*group, cond string) {
-	r.collectD(obj, sel, visited, groups, cond, false, "")
+	r.collectD(obj, sel, visited, groups, cond, false, "", nil)
 }
 
-func (r *Ref) collectD(obj *ast.Definition, sel ast.SelectionSet, visited map[string]bool, groups *[]*group, cond string, dfr bool, dlabel string) {
+func (r *Ref) collectD(obj *ast.Definition, sel ast.SelectionSet, visited map[string]bool, groups *[]*group, cond string, dfr bool, dlabel string, dlabels []string) {
 	for _, s := range sel {
 		switch s := s.(type) {
 		case *ast.Field:
@@ -312,6 +313,7 @@ func (r *Ref) collectD(obj *ast.Definition, sel ast.SelectionSet, visited map[st
 			g.fields = append(g.fields, s)
 			if dfr {
 				g.deferred, g.label = true, dlabel
+				g.labels = append(g.labels, dlabels...)
 			}
 		case *ast.InlineFragment:
 			if !r.include(s.Directives) {
@@ -324,11 +326,12 @@ func (r *Ref) collectD(obj *ast.Definition, sel ast.SelectionSet, visited map[st
 			if s.TypeCondition != "" {
 				c = s.TypeCondition
 			}
-			d2, l2 := dfr, dlabel
+			d2, l2, ls2 := dfr, dlabel, dlabels
 			if on, lb := r.deferOf(s.Directives); on {
 				d2, l2 = true, lb
+				ls2 = append(append([]string{}, dlabels...), lb)
 			}
-			r.collectD(obj, s.SelectionSet, visited, groups, c, d2, l2)
+			r.collectD(obj, s.SelectionSet, visited, groups, c, d2, l2, ls2)
 		case *ast.FragmentSpread:
 			if r.Quirks.SpreadVisitedBeforeDirective {
 				if visited[s.Name] {
@@ -351,11 +354,12 @@ func (r *Ref) collectD(obj *ast.Definition, sel ast.SelectionSet, visited map[st
 			if f == nil || !r.typeApplies(obj, f.TypeCondition) {
 				continue
 			}
-			d2, l2 := dfr, dlabel
+			d2, l2, ls2 := dfr, dlabel, dlabels
 			if on, lb := r.deferOf(s.Directives); on {
 				d2, l2 = true, lb
+				ls2 = append(append([]string{}, dlabels...), lb)
 			}
-			r.collectD(obj, f.SelectionSet, visited, groups, f.TypeCondition, d2, l2)
+			r.collectD(obj, f.SelectionSet, visited, groups, f.TypeCondition, d2, l2, ls2)
 		}
 	}
 }
@@ -376,9 +380,14 @@ func (r *Ref) selectionSet(obj *ast.Definition, objPath string, sel ast.Selectio
 	invalid := false
 	seenLabel := map[string]bool{}
 	for _, g := range groups {
-		if g.deferred && !seenLabel[g.label] {
-			seenLabel[g.label] = true
-			r.Groups = append(r.Groups, objPath+"|"+g.label)
+		if !g.deferred {
+			continue
+		}
+		for _, lb := range g.labels {
+			if !seenLabel[lb] {
+				seenLabel[lb] = true
+				r.Groups = append(r.Groups, objPath+"|"+lb)
+			}
 		}
 	}
 	for _, g := range groups {
@@ -495,6 +504,11 @@ func (r *Ref) field(obj *ast.Definition, objPath, path string, fd *ast.FieldDefi
 			return r.nonNullCheck(fd.Type, path, Null)
 		case "null":
 			return r.nonNullCheck(fd.Type, path, Null)
+		case "rogue":
+			// a value of a Go type the generated type switch does not know: it panics while
+			// completing this position
+			r.addErr(path, "panic")
+			return r.nonNullCheck(fd.Type, path, Null)
 		case "typednil":
 			if r.Quirks.TypedNilNoError {
 				return Null
@@ -561,6 +575,9 @@ func (r *Ref) complete(t *ast.Type, objPath, path, fieldName, outcome string, fi
 					} else {
 						ev = r.nonNullCheck(t.Elem, ep, Null)
 					}
+				case "rogue":
+					r.addErr(ep, "panic")
+					ev = Null
 				case "alt":
 					ev, _ = r.complete(t.Elem, objPath, ep, fieldName, "alt", fields)
 				default:
